@@ -75,6 +75,99 @@ def caller_dicts(dicts, shared=False):
     return out
 
 
+SOURCES = ("list", "iter", "tuple", "gen", "values", "deque", "getitem", "fresh", "counting", "reader", "drain")
+# what iterating the object twice does: a container starts again, a one-shot iterator IS its own iterator, a record
+# reader hands out a new iterator over ONE shared cursor
+SOURCE_CLASS = {"list": "container", "tuple": "container", "values": "container", "deque": "container", "getitem": "container",
+                "fresh": "container", "counting": "container", "iter": "oneshot", "gen": "oneshot", "reader": "reader",
+                "drain": "reader"}
+
+
+class _Reader:
+    """The usual record reader: an iterable (not an iterator) whose __iter__ reads records off one open cursor."""
+
+    def __init__(self, ds):
+        self._cursor = iter(ds)
+
+    def __iter__(self):
+        for d in self._cursor:
+            yield d
+
+
+class _Drain:
+    """A queue drainer: every iteration takes records off the same queue until it is empty."""
+
+    def __init__(self, ds):
+        self._queue = collections.deque(ds)
+
+    def __iter__(self):
+        while self._queue:
+            yield self._queue.popleft()
+
+
+class _Fresh:
+    """Iterable only (no len, no indexing, not an iterator): a new generator from the start on every iteration."""
+
+    def __init__(self, ds):
+        self._ds = ds
+
+    def __iter__(self):
+        return (d for d in self._ds)
+
+
+class _Counting:
+    """A container that counts how many iterations were started on it."""
+
+    def __init__(self, ds):
+        self._ds, self.started = ds, 0
+
+    def __iter__(self):
+        self.started += 1
+        return iter(self._ds)
+
+
+class _GetItem:
+    """The old sequence protocol: __getitem__ with IndexError at the end, nothing else."""
+
+    def __init__(self, ds):
+        self._ds = ds
+
+    def __getitem__(self, i):
+        return self._ds[i]
+
+
+def source_kind(c):
+    """How the sequence of dictionaries is handed to the constructor (`iterator: true` is the older spelling of `iter`)."""
+    k = c.get("source")
+    if k in SOURCES:
+        return k
+    return "iter" if c.get("iterator") else "list"
+
+
+def make_source(dicts, kind):
+    if kind == "iter":
+        return iter(dicts)
+    if kind == "tuple":
+        return tuple(dicts)
+    if kind == "gen":
+        return (d for d in dicts)
+    if kind == "values":
+        return {i: d for i, d in enumerate(dicts)}.values()
+    if kind == "deque":
+        return collections.deque(dicts)
+    if kind == "getitem":
+        return _GetItem(dicts)
+    if kind == "fresh":
+        return _Fresh(dicts)
+    if kind == "counting":
+        return _Counting(dicts)
+    if kind == "reader":
+        return _Reader(dicts)
+    if kind == "drain":
+        return _Drain(dicts)
+    return dicts
+
+
 def spoil_input(*ds):
     """After the operation the caller goes on using its dictionary: empties it, puts something else in.  A row
     is built from the dictionary when it is built; it does not follow the dictionary afterwards.  (Top level
@@ -411,7 +504,7 @@ def impl_frame(case):
     from orso import DataFrame
 
     dicts = caller_dicts(case["dicts"], case.get("shared"))
-    src = iter(dicts) if case.get("iterator") else dicts
+    src = make_source(dicts, source_kind(case))
     try:
         df = DataFrame(src)
     except StopIteration:
@@ -422,6 +515,8 @@ def impl_frame(case):
     try:
         out = {"names": list(df.column_names), "rows": [canon(tuple(r)) for r in df], "rowcount": df.rowcount,
                "shape": list(df.shape)}
+        if isinstance(src, _Counting):
+            out["iterations"] = src.started
         out["views"] = frame_row_views(df, out["names"])
         out["rows_again"] = [canon(tuple(r)) for r in df]
     except Exception as e:
@@ -609,7 +704,7 @@ def impl_session(case):
                         o = {"skip": True}
                     else:
                         dicts = caller_dicts(op["dicts"], op.get("shared"))
-                        df = DataFrame(iter(dicts) if op.get("iterator") else dicts)
+                        df = DataFrame(make_source(dicts, source_kind(op)))
                         spoil_input(*dicts)
                         frames.append(df)
                         o = {"names": list(df.column_names), "rows": [canon(tuple(r)) for r in df], "rowcount": df.rowcount}
@@ -874,7 +969,13 @@ def impl_bound(case):
     from orso.schema import FlatColumn, RelationSchema
 
     schemas, frames, outs = [], [], []
-    for op in case["ops"]:
+    held = []  # (number of the operation that built it, the Row object): every row built from a dictionary so far
+
+    def review():
+        """Every view of the rows built earlier (the last few), read now."""
+        return [[i, views_of(r, case["ops"][i].get("probes", []), case["ops"][i].get("default"))] for i, r in held[-HELD:]]
+
+    for n_op, op in enumerate(case["ops"]):
         k = op["op"]
         o = {}
         try:
@@ -916,7 +1017,10 @@ def impl_bound(case):
                     entry = mapping(op["dict"], op.get("mapping"))
                     row = Row.create_class(s)(entry)
                     spoil_input(entry)
-                    o = views_of(row, op["probes"], op["default"], op.get("reads"))
+                    held.append((n_op, row))
+                    # unread: nobody looks at the row now; its views are read for the first time after later operations
+                    o = ({"row": canon(tuple(row)), "unread": True} if op.get("unread") else
+                         views_of(row, op["probes"], op["default"], op.get("reads")))
                 elif k == "append":
                     df = frames[op["frame"] % len(frames)]
                     entry = mapping(op["dict"], op.get("mapping"))
@@ -928,11 +1032,15 @@ def impl_bound(case):
                         o = {"refused": type(e).__name__, "rows": [canon(tuple(r)) for r in df._rows]}
                     else:
                         spoil_input(entry)
+                        if isinstance(df._rows, list) and df._rows and hasattr(df._rows[-1], "as_map"):
+                            held.append((n_op, df._rows[-1]))
                         o = {"rows": [canon(tuple(r)) for r in df._rows], "rowcount": df.rowcount,
-                             "last": last_views(df, op.get("probes", []), op.get("default"), op.get("reads"))}
+                             "last": ({"unread": True} if op.get("unread") else
+                                      last_views(df, op.get("probes", []), op.get("default"), op.get("reads")))}
                 elif k == "reread":
                     df = frames[op["frame"] % len(frames)]
                     o = {"rows": [canon(tuple(r)) for r in df], "rowcount": df.rowcount}
+                    o["held"] = review()
                 elif k == "derive":
                     df = frames[op["frame"] % len(frames)]
                     df.materialize()
@@ -943,7 +1051,31 @@ def impl_bound(case):
         except Exception as e:
             o = {"op_raised": type(e).__name__}
         outs.append(o)
-    return {"ops": outs}
+    try:
+        final = review()  # when the session is over, the rows built during it are looked at once more
+    except Exception as e:
+        final = {"__raised__": type(e).__name__}
+    return {"ops": outs, "held": final}
+
+
+HELD = 6
+EARLIER = ("a row built from a dictionary earlier, read again after later operations on its frame / its schema object "
+           "(a row keeps the association it was built with): ")
+
+
+def judge_held(ops, exp, held, upto):
+    """The rows built by operations before `upto`, judged against the names their schema had WHEN THEY WERE BUILT."""
+    if is_raised(held):
+        return EARLIER + "reading the views raised %s" % held["__raised__"]
+    for i, v in held:
+        e, op = exp[i], ops[i]
+        if e is None or i >= upto:
+            continue
+        want = e["row"] if op["op"] == "append" else [op["dict"].get(f, None) for f in e["names"]]
+        c = judge_views(e["names"], want, v, op.get("probes", []), op.get("default"))
+        if c:
+            return EARLIER + c
+    return None
 
 
 def bound_expected(ops, outs=None):
@@ -1019,6 +1151,10 @@ def oracle_bound(case, out):
             raise InfraError("C02: the harness's own edit of a schema object is not the mirror's: %r vs %r" % (o["names"], e["names"]))
         if k == "rowclass":
             want = [op["dict"].get(f, None) for f in e["names"]]
+            if o.get("unread"):
+                if not wire.same(o["row"], want):
+                    return "a field's value is not at that field's position (or absent field not null / extra key not ignored)"
+                continue
             c = judge_views(e["names"], want, o, op["probes"], op["default"])
             if c:
                 return c
@@ -1031,15 +1167,21 @@ def oracle_bound(case, out):
                 continue
             if not wire.same(o["rows"], e["rows"]) or o["rowcount"] != len(e["rows"]):
                 return NOW + "append(dict) did not add exactly the record's row"
-            c = judge_views(e["names"], e["row"], o["last"], op.get("probes", []), op.get("default"))
-            if c:
-                return NOW + c
+            if not o["last"].get("unread"):
+                c = judge_views(e["names"], e["row"], o["last"], op.get("probes", []), op.get("default"))
+                if c:
+                    return NOW + c
         elif k == "reread":
             if not wire.same(o["rows"], e["rows"]) or o["rowcount"] != len(e["rows"]):
                 return "a frame no longer holds exactly the rows it was given and the rows of the dictionaries appended to it"
+            c = judge_held(ops, exp, o.get("held", []), len(ops))
+            if c:
+                return c
         elif k == "derive":
             if any(not any(wire.same(r, sr) for sr in e["source"]) for r in o["rows"]):
                 return "a frame derived from a bound frame holds a row that is not a row of its source"
+    if not any("op_raised" in o for o in outs):
+        return judge_held(ops, exp, out.get("held", []), len(ops))
     return None
 
 
@@ -1109,11 +1251,14 @@ def bound_matches(case, out, mouts):
                 ok = mo == ["refused"]
             else:
                 last = o["last"]
-                ok = (mo[0] == "appended" and wire.same(mo[1], o["rows"]) and "row" in last and wire.same(mo[2], view(last, "as_map"))
-                      and wire.same(mo[3], view(last, "as_dict")) and wire.same(mo[4], last["gets"]))
+                ok = mo[0] == "appended" and wire.same(mo[1], o["rows"])
+                if ok and not last.get("unread"):
+                    ok = ("row" in last and wire.same(mo[2], view(last, "as_map"))
+                          and wire.same(mo[3], view(last, "as_dict")) and wire.same(mo[4], last["gets"]))
         else:
-            ok = (mo[0] == "row" and "row" in o and wire.same(mo[1], o["row"]) and wire.same(mo[2], view(o, "as_map"))
-                  and wire.same(mo[3], view(o, "as_dict")) and wire.same(mo[4], o["gets"]))
+            ok = mo[0] == "row" and "row" in o and wire.same(mo[1], o["row"])
+            if ok and not o.get("unread"):
+                ok = wire.same(mo[2], view(o, "as_map")) and wire.same(mo[3], view(o, "as_dict")) and wire.same(mo[4], o["gets"])
         if not ok:
             return False
     return True
@@ -1155,11 +1300,146 @@ def bound_mirror_check(ctx, case, out, mouts):
     ctx.disagree(ordered(case), out, mouts, what="the model assembled from the changed source statements differs from the specification")
 
 
+
+# ----------------------------------------------------------------------------- records at the size limit
+
+DOCUMENTED_LIMIT = 16 * 1024 * 1024  # "Record length cannot exceed 16Mb": the packed values of one record
+SIZED_VIAS = ("dicts", "names", "schema")
+SIZED_READS = {"first": ["as_map", "as_dict", "values", "keys"], "then": ["keys", "values", "as_dict", "as_map"]}
+
+
+def big_value(big):
+    n = big["len"]
+    return b"x" * n if big.get("as") == "bytes" else "x" * n
+
+
+def packed_size(cells):
+    """The size of the packed values of a record, computed without orso (ormsgpack, as the source's own `packb`)."""
+    import ormsgpack
+
+    return len(ormsgpack.packb(tuple(cells)))
+
+
+def sized_record(case):
+    d = dict(case["dict"])
+    d[case["big"]["key"]] = big_value(case["big"])
+    return d
+
+
+def compact(x):
+    """An output as it goes into a report: long text / bytes by their length."""
+    if isinstance(x, (str, bytes)) and len(x) > 256:
+        return {"__long__": type(x).__name__, "len": len(x)}
+    if isinstance(x, (list, tuple)):
+        return [compact(v) for v in x]
+    if isinstance(x, dict):
+        return {k: compact(v) for k, v in x.items()}
+    return x
+
+
+def impl_sized(case):
+    """append(dict) of a record whose packed values are at / just below / just past a size threshold of the source
+    (as_bytes is reached from append through nbytes).  Judged here, where the long value still exists; the output
+    carries lengths only."""
+    from orso import DataFrame
+    from orso.schema import FlatColumn, RelationSchema
+
+    fields, via = list(case["fields"]), case["via"]
+    d = sized_record(case)
+    want = [d.get(f, None) for f in fields]
+    out = {"packed": packed_size(want)}
+    try:
+        if via == "dicts":
+            df = DataFrame([{f: None for f in fields}])
+            prev = [[None for _ in fields]]
+        else:
+            schema = RelationSchema(name="t", columns=[FlatColumn(name=f) for f in fields]) if via == "schema" else list(fields)
+            df = DataFrame(rows=[], schema=schema)
+            prev = []
+    except Exception as e:
+        return {"setup_raised": type(e).__name__}
+    try:
+        df.append(dict(d))
+    except Exception as e:
+        out["raised"] = type(e).__name__
+        out["rows_kept"] = wire.same([canon(tuple(r)) for r in df._rows], prev)
+        out["clause"] = None
+        if out["packed"] <= DOCUMENTED_LIMIT:
+            out["clause"] = ("append(dict) raised %s for a record whose packed values do not exceed the stated limit (16 MiB)"
+                             % out["raised"])
+        elif not out["rows_kept"]:
+            out["clause"] = "append(dict) stored a row that is not the record's row"
+        return out
+    rows = [canon(tuple(r)) for r in df._rows]
+    out["rowcount"] = df.rowcount
+    if not wire.same(rows, prev + [want]) or df.rowcount != len(prev) + 1:
+        out["clause"] = "append(dict) did not add exactly the record's row"
+        out["rows"] = compact(rows)
+        return out
+    probes = frame_probes(fields) + [case["big"]["key"]]
+    v = last_views(df, probes, "dflt", SIZED_READS)
+    out["clause"] = judge_views(fields, want, v, probes, "dflt")
+    out["last"] = compact(v)
+    return out
+
+
+def oracle_sized(case, out):
+    if "setup_raised" in out:
+        return None
+    return out.get("clause")
+
+
+def sized_thresholds():
+    """Every size threshold of the source's record guard: the stated limit and whatever orso.row has now as
+    MAXIMUM_RECORD_SIZE, each minus/plus the header size and one."""
+    ts, header = {DOCUMENTED_LIMIT}, 14
+    try:
+        import orso.row as r
+
+        if isinstance(getattr(r, "MAXIMUM_RECORD_SIZE", None), int) and 0 < r.MAXIMUM_RECORD_SIZE <= 64 * 1024 * 1024:
+            ts.add(r.MAXIMUM_RECORD_SIZE)
+        if isinstance(getattr(r, "HEADER_SIZE", None), int) and 0 < r.HEADER_SIZE < 4096:
+            header = r.HEADER_SIZE
+    except Exception:
+        pass
+    offs = sorted({-header - 1, -header, -header + 1, -15, -14, -13, -1, 0, 1})
+    return sorted(ts), offs
+
+
+def sized_case(via, fields, small, key, packed, as_):
+    """The case whose record packs to exactly `packed` bytes (None when that is not reachable with one long value)."""
+    probe = {"kind": "sized", "via": via, "fields": fields, "dict": small, "big": {"as": as_, "key": key, "len": 70000}}
+    d = sized_record(probe)
+    base = packed_size([d.get(f, None) for f in fields])
+    n = 70000 + packed - base
+    if n < 65536 or n > 80 * 1024 * 1024:
+        return None
+    probe["big"]["len"] = n
+    return probe
+
+
+def exhaustive_sized(quick=True):
+    ts, offs = sized_thresholds()
+    for t in ts:
+        for off in offs:
+            for via in SIZED_VIAS:
+                if quick and via != "dicts" and off not in (-14, -13, 0, 1):
+                    continue
+                fields = ["id", "body"]
+                small = {"body": None, "id": 2} if via == "schema" else {"body": None, "unknown": True, "id": 2}
+                c = sized_case(via, fields, small, "body", t + off, "str")
+                if c:
+                    yield c
+            if off in (-14, 0, 1):
+                c = sized_case("dicts", ["blob"], {}, "blob", t + off, "bytes")
+                if c:
+                    yield c
+
 # ----------------------------------------------------------------------------- one case, any kind
 
 IMPL = {"row": (impl_row, oracle_row), "frame": (impl_frame, oracle_frame), "append": (impl_append, oracle_append),
         "ctx": (impl_ctx, lambda c, o: None), "session": (impl_session, oracle_session),
-        "bound": (impl_bound, oracle_bound)}
+        "bound": (impl_bound, oracle_bound), "sized": (impl_sized, oracle_sized)}
 
 
 def run_case(case):
@@ -1186,7 +1466,7 @@ def session_wire(ops):
         if k == "ctx":
             w.append(["ctx"])
         elif k == "frame":
-            w.append(["frame", op["dicts"]])
+            w.append(["frame", op["dicts"], SOURCE_CLASS[source_kind(op)]])
         elif k == "rows":
             w.append(["rows", op["fields"], op["rows"]])
         elif k == "append":
@@ -1276,7 +1556,10 @@ def model_line(case):
     if k == "row":
         return "C02 row " + wire.line(case["fields"], case["dict"], case["probes"], case["default"], bool(case.get("mapping")))
     if k == "frame":
-        return "C02 frame " + wire.line(case["dicts"])
+        return "C02 frame " + wire.line(case["dicts"], SOURCE_CLASS[source_kind(case)])
+    if k == "sized":
+        d = sized_record(case)
+        return "C02 sized " + wire.line(packed_size([d.get(f, None) for f in case["fields"]]))
     if k == "append":
         return "C02 append " + wire.line(case["fields"], case["rows"], case["dict"], bool(case.get("mapping")))
     if k == "session":
@@ -1305,6 +1588,8 @@ def compare_model(case, out, mo):
               or ("raised" not in out and wire.same(m[0], out["rows"])))
     elif k == "bound":
         ok = bound_matches(case, out, m[0])
+    elif k == "sized":
+        ok = "setup_raised" in out or m[0] == ("refused" if out.get("raised") == "DataError" else "stored")
     else:
         ok = session_matches(case, out, m[0])
     return ok, m
@@ -1403,7 +1688,7 @@ def valid_op(op):
     if k == "ctx":
         return op["what"] in CTX_KINDS and all(isinstance(f, str) for f in op["fields"])
     if k == "frame":
-        return isinstance(op["dicts"], list) and all(text_dict(d) for d in op["dicts"])
+        return isinstance(op["dicts"], list) and all(text_dict(d) for d in op["dicts"]) and op.get("source", "list") in SOURCES
     if k == "rows":
         w = len(op["fields"])
         return all(isinstance(f, str) for f in op["fields"]) and all(isinstance(r, list) and len(r) == w for r in op["rows"])
@@ -1446,9 +1731,10 @@ def valid_bound_op(op):
         return how in ("swap", "remove", "reverse") or isinstance(op["name"], str)
     if k == "append":
         return (nat(op["frame"]) and text_dict(op["dict"]) and valid_reads(op) and op.get("from_row") is None
-                and all(isinstance(p, str) for p in op.get("probes", [])))
+                and all(isinstance(p, str) for p in op.get("probes", [])) and op.get("unread") in (None, True))
     if k == "rowclass":
-        return nat(op["schema"]) and text_dict(op["dict"]) and valid_reads(op) and all(isinstance(p, str) for p in op["probes"])
+        return (nat(op["schema"]) and text_dict(op["dict"]) and valid_reads(op) and all(isinstance(p, str) for p in op["probes"])
+                and op.get("unread") in (None, True))
     if k == "reread":
         return nat(op["frame"])
     if k == "derive":
@@ -1465,7 +1751,8 @@ def valid_case(c):
             return (all(isinstance(f, str) for f in c["fields"]) and text_dict(c["dict"]) and valid_reads(c)
                     and all(isinstance(p, str) for p in c["probes"]))
         if k == "frame":
-            return all(text_dict(d) for d in c["dicts"]) and (c.get("append") is None or text_dict(c["append"]))
+            return (all(text_dict(d) for d in c["dicts"]) and (c.get("append") is None or text_dict(c["append"]))
+                    and c.get("source", "list") in SOURCES)
         if k == "append":
             w = len(c["fields"])
             bound = c["schema_bound"] or c.get("via") == "arrow"
@@ -1477,6 +1764,13 @@ def valid_case(c):
                     and valid_reads(c) and all(isinstance(p, str) for p in c.get("probes", [])))
         if k == "ctx":
             return c["what"] in CTX_KINDS and all(isinstance(f, str) for f in c["fields"])
+        if k == "sized":
+            b = c["big"]
+            return (c["via"] in SIZED_VIAS and all(isinstance(f, str) for f in c["fields"]) and text_dict(c["dict"])
+                    and isinstance(b["key"], str) and b["key"] in c["fields"] and b.get("as", "str") in ("str", "bytes")
+                    and type(b["len"]) is int and 0 <= b["len"] <= 80 * 1024 * 1024
+                    and (c["via"] != "schema" or (len(set(c["fields"])) == len(c["fields"])
+                                                  and set(c["dict"]) | {b["key"]} == set(c["fields"]))))
         if k == "session":
             return isinstance(c["ops"], list) and all(valid_op(op) for op in c["ops"])
         if k == "sequence":
@@ -1638,8 +1932,8 @@ def _drop_key_variants(x):
                     y["dicts"] = [dict(v), dict(v)]
                     yield y
         if structural:
-            for k in ("mapping", "iterator", "reads", "shared", "from_row", "lazy", "append"):
-                if x.get(k):
+            for k in ("mapping", "iterator", "source", "reads", "shared", "from_row", "lazy", "append", "unread"):
+                if x.get(k) or (k == "append" and x.get(k) is not None):
                     y = dict(x)
                     del y[k]
                     yield y
@@ -1817,10 +2111,13 @@ def classify(ctx, c):
         if seen:
             ctx.hit("row-after-other-feature-same-fields")
     elif k == "frame":
+        ctx.hit("frame-source:%s(%s)" % (source_kind(c), SOURCE_CLASS[source_kind(c)]))
         if c["dicts"] and len(c["dicts"][0]) > 16:
             ctx.hit("frame-wide:%d" % len(c["dicts"][0]))
         if c.get("shared") and any(list(a.items()) == list(b.items()) for a, b in zip(c["dicts"], c["dicts"][1:])):
             ctx.hit("same-dictionary-object-twice")
+    elif k == "sized":
+        ctx.hit("sized-via:" + c["via"] + ":" + c["big"].get("as", "str"))
     elif k == "ctx":
         ctx.hit("ctx:" + c["what"])
         SEEN_CTX.setdefault(tuple(c["fields"]), set()).add(c["what"])
@@ -1869,6 +2166,8 @@ def classify(ctx, c):
             ctx.hit("session-op:" + op["op"] + (":" + op["what"] if op["op"] == "ctx" else ""))
             if op["op"] == "rows" and op.get("lazy"):
                 ctx.hit("session:frame-backed-by-a-generator")
+            if op["op"] == "frame":
+                ctx.hit("frame-source:%s(%s)" % (source_kind(op), SOURCE_CLASS[source_kind(op)]))
             if op.get("from_row") is not None:
                 ctx.hit("session:append-of-a-row's-own-dictionary-view")
             if op.get("shared") and any(a == b for a, b in zip(op.get("dicts", []), op.get("dicts", [])[1:])):
@@ -1903,12 +2202,17 @@ def observe(ctx, c, out):
     if not isinstance(out, dict):
         return
     k = c["kind"]
+    if k == "sized" and "packed" in out:
+        ctx.hit("sized:packed-values-minus-stated-limit:%+d:%s" % (out["packed"] - DOCUMENTED_LIMIT,
+                                                                 "refused" if "raised" in out else "stored"))
     if k == "row":
         one(out, c.get("reads"))
     elif k == "frame":
         for v in out.get("views") or []:
             one(v, None)
         one(out.get("append_last"), None)
+        if "iterations" in out:
+            ctx.hit("frame-source-iterations-started:%d" % out["iterations"])
     elif k == "append":
         one(out.get("last"), c.get("reads"))
         if out.get("raised") in VALIDATION_ERRORS:
@@ -1925,8 +2229,19 @@ def observe(ctx, c, out):
                 if "refused" in o:
                     ctx.hit("bound:append-refused-by-validation")
                 elif "last" in o:
-                    ctx.hit("bound:append-accepted")
+                    ctx.hit("bound:append-accepted" + (":row-left-unread" if o["last"].get("unread") else ""))
                     one(o.get("last"), op.get("reads"))
+        hv = out.get("held")
+        if isinstance(hv, list) and hv:
+            ctx.hit("bound:earlier-rows-read-again-at-the-end")
+            kinds = [op["op"] for op in c["ops"]]
+            for i, _ in hv:
+                later = kinds[i + 1:]
+                if "mutate" in later:
+                    ctx.hit("bound:earlier-row-read-again-after-an-edit-of-a-schema-object"
+                            + ("-and-a-later-append" if "append" in later[later.index("mutate"):] else ""))
+                if c["ops"][i].get("unread"):
+                    ctx.hit("bound:earlier-row-first-read-after-later-operations")
     elif k == "session":
         for op, o in zip(c["ops"], out.get("ops", [])):
             if op["op"] == "row":
@@ -2050,6 +2365,14 @@ def gen_row_case(rng):
     return c
 
 
+def gen_source(rng, c):
+    """How the caller holds the sequence of dictionaries it gives to the constructor."""
+    r = rng.random()
+    if r >= 0.3:
+        c["source"] = "iter" if r < 0.45 else rng.choice(SOURCES[2:])
+    return c
+
+
 def gen_frame_case(rng):
     n = rng.choice([0, 1, 1, 2, 3, 4, 6])
     first_keys = rng.sample(NAMES, rng.randint(0, 4)) if rng.random() < 0.6 else rng.sample(SMALL, rng.randint(0, 4))
@@ -2066,7 +2389,8 @@ def gen_frame_case(rng):
     if len(dicts) > 1 and rng.random() < 0.2:
         j = rng.randrange(1, len(dicts))
         dicts[j] = dict(dicts[j - 1])  # the same record twice in a row
-    c = {"kind": "frame", "dicts": dicts, "iterator": rng.random() < 0.4}
+    c = {"kind": "frame", "dicts": dicts}
+    gen_source(rng, c)
     if rng.random() < 0.3:
         c["shared"] = True
     if dicts and rng.random() < 0.5:
@@ -2159,7 +2483,7 @@ def gen_session_case(rng):
             dicts = [{f: gen_pyval(rng, 1) for f in fk}] + [gen_dict(rng, fk) for _ in range(max(k - 1, 0))] if k else []
             if len(dicts) > 1 and rng.random() < 0.3:
                 dicts[1] = dict(dicts[0])
-            ops.append({"op": "frame", "dicts": dicts, "iterator": rng.random() < 0.4})
+            ops.append(gen_source(rng, {"op": "frame", "dicts": dicts}))
             if rng.random() < 0.4:
                 ops[-1]["shared"] = True
         elif r < 0.45:
@@ -2289,6 +2613,8 @@ def gen_bound_case(rng):
             rd = gen_reads(rng)
             if rd:
                 op["reads"] = rd
+            elif rng.random() < 0.4:
+                op["unread"] = True
             ops.append(op)
         elif r < 0.90:
             gone = [x for x in former[si] if x not in names]
@@ -2297,6 +2623,8 @@ def gen_bound_case(rng):
             rd = gen_reads(rng)
             if rd:
                 op["reads"] = rd
+            elif rng.random() < 0.3:
+                op["unread"] = True
             ops.append(op)
         elif r < 0.93:
             ops.append({"op": "reread", "frame": rng.randint(0, 5)})
@@ -2320,7 +2648,8 @@ def exhaustive_bound():
                {"op": "rowclass", "schema": 0, "dict": {"b": 1, "a": 2}, "probes": ["a"], "default": None},
                {"op": "bound", "schema": 0, "rows": []}, {"op": "fnames", "frame": 0, "how": "select"},
                {"op": "fnames", "frame": 0, "how": "column_names"}, {"op": "derive", "frame": 0, "how": "query"},
-               {"op": "append", "frame": 0, "dict": {"b": 1, "a": 2}, "probes": ["a"], "default": None}]
+               {"op": "append", "frame": 0, "dict": {"b": 1, "a": 2}, "probes": ["a"], "default": None},
+               {"op": "append", "frame": 0, "dict": {"b": 1, "a": 2}, "probes": ["a", "b", "c"], "default": "dflt", "unread": True}]
     edits = [{"how": "rename", "pos": 0, "name": "c"}, {"how": "rename", "pos": 1, "name": "c"}, {"how": "rename", "pos": 0, "name": "b"},
              {"how": "replace", "pos": 0, "name": "c"}, {"how": "replace", "pos": 1, "name": "a"},
              {"how": "popinsert", "pos": 0, "at": 0, "name": "c"}, {"how": "popinsert", "pos": 0, "at": 1, "name": "c"},
@@ -2396,6 +2725,19 @@ def exhaustive_sessions():
                 yield {"kind": "session", "ops": ops}
 
 
+def exhaustive_sources():
+    """Every way of holding the sequence (list, tuple, iterator, generator, dict view, deque, old sequence protocol,
+    iterable-only object, counting container, record reader over one cursor, queue drainer) x 1..4 dictionaries, as a
+    flat frame case (with a dictionary appended afterwards) and as the first operation of a session."""
+    for kind in SOURCES:
+        for n in (1, 2, 3, 4):
+            dicts = [{"a": 0, "b": "x"}, {"b": 1, "a": None, "z": 9}, {"a": 2}, {}][:n]
+            yield {"kind": "frame", "dicts": dicts, "source": kind, "append": {"b": 5, "a": 4}}
+            yield {"kind": "session", "ops": [{"op": "frame", "dicts": dicts, "source": kind},
+                                              {"op": "append", "frame": 0, "dict": {"b": 5}, "probes": ["a", "b"], "default": None},
+                                              {"op": "reread", "frame": 0}]}
+
+
 def gen_any(rng):
     r = rng.random()
     if r < 0.38:
@@ -2434,6 +2776,15 @@ def run(ctx):
         ctx.note("exhaustive_bound", "%d sessions on one schema object: every way of reading its names (or none) x every edit of the "
                  "object x every way a dictionary meets it afterwards (free-standing row, frame made after, frame made before, frame "
                  "derived from that one)" % len(bnd))
+        srcs = list(exhaustive_sources())
+        evaluate(ctx, srcs)
+        ctx.note("exhaustive_sources", "%d frames / sessions: each of %d ways of holding the sequence of dictionaries given to the "
+                 "constructor (%s) x 1..4 dictionaries" % (len(srcs), len(SOURCES), ", ".join(SOURCES)))
+        szd = list(exhaustive_sized(ctx.scale(True, False)))
+        evaluate(ctx, szd)
+        ctx.note("exhaustive_sized", "%d appends of a record whose packed values are at / one below / one past every size threshold "
+                 "of the source's record guard (stated limit %d; thresholds %r, offsets %r), on a frame of dictionaries, a names-only "
+                 "frame and a schema-bound frame" % ((len(szd), DOCUMENTED_LIMIT) + sized_thresholds()))
         rds = list(exhaustive_reads())
         evaluate(ctx, rds)
         ctx.note("exhaustive_reads", "%d rows: every subset of the %d views read before the caller changes every changeable object "
